@@ -55,7 +55,7 @@ class Backfilling(TMGRSchedulingComponent):
         # pilots just got added.  If we did not have any pilot before, we might
         # have tasks in the wait queue waiting -- now is a good time to take
         # care of those!
-        with self._wait_lock:
+        with self._pilots_lock, self._wait_lock:
 
             # initialize custom data for the pilot
             for pid in pids:
